@@ -503,16 +503,7 @@ def histories(ctx, kind, owned, cap=None, thorough_len=4, seeds=(1, 2, 3, 4, 5, 
 
 def prove(ctx):
     """the memo discipline for histories of ANY length: spec/HistoryProof.tla, checked by the TLA+ proof system"""
-    from . import core
-    if "history_proof" in ctx.notes:
-        return
-    n, ok, out = core.run_tlapm("HistoryProof", ctx.workdir)
-    if "TLAPM-NOT-INSTALLED" in out:
-        ctx.notes["history_proof"] = "tlapm not available: the unbounded theorem was not re-checked in this run"
-        return
-    if not ok:
-        raise core.MachineryError("tlapm does not prove spec/HistoryProof.tla:\n" + "\n".join(out.splitlines()[-30:]))
-    ctx.notes["history_proof"] = "tlapm: all %d obligations of HistoryProof (StoreIsCurrent inductive, AnswerIsIdeal) proved" % n
+    ctx.prove("HistoryProof", "StoreIsCurrent inductive, AnswerIsIdeal: the memo discipline for histories of any length")
 
 
 def check(ctx, kind, owned, families, selftest=False, cap=None):
